@@ -101,7 +101,7 @@ def frame_spec(S_, h, n, sf, frame):
                n.f(sf, "_line_number") == h.f(frame, "f_lineno"))
 
 
-c = contract(FC, "FrameCollector._process_frame", ["C02", "C06", "C07"])
+c = contract(FC, "FrameCollector._process_frame", ["C02", "C05", "C06", "C07"])
 c.param("self", OBJ("FrameCollector")).param("var_lookup", DICT(OBJ("Variable", inv=False)))
 c.param("var_cache", OBJ("VariableCacheProvider"))
 c.param("frame", FRAME()).param("collect_vars", BOOL)
@@ -323,7 +323,7 @@ def _tp_post(S_):
 c.ens("names-the-tracepoint", _tp_post)
 
 # ---------------------------------------------------------------- SnapshotActionContext._process_action
-c = contract(SA, "SnapshotActionContext._process_action", ["C02", "C06", "C07", "C16"])
+c = contract(SA, "SnapshotActionContext._process_action", ["C02", "C06", "C07", "C16", "C20"])
 c.param("self", OBJ("SnapshotActionContext"))
 c.result = VAL
 c.host_ops_exc_base = "Exception"
@@ -332,7 +332,7 @@ c.modifies = lambda S_: [("all",)]
 c.sig("Exception", "log-template-cannot-be-rendered",
       cond=lambda S_: S_.old.dhas(S_.old.f(S_.old.f(S_.a.self, "location_action"), "LocationAction.__config"), "log_msg"))
 c.sig_props = ["C06"]
-c.max_paths = 600
+c.max_paths = 40         # 19 paths on the unchanged tree; a body that explodes is reported (what was decided so far stands), not explored for an hour
 # the action's own configuration is not touched by collecting (encapsulation); the client's resource is a Resource
 c.protects = lambda S_: {"fields": ["_resource"], "lists": [], "dicts": [S_.old.f(S_.old.f(S_.a.self, "location_action"), "LocationAction.__config")]}
 c.req("the-client-resource-has-been-set-up", lambda S_: S_.I.assume_shape(S_.old.f(S_.old.f(S_.old.f(
